@@ -85,6 +85,7 @@ FLOWS = [[], [], [], [], ['new'], ['1'], ['2'], ['none']]
 PRE_OPS = ['loop', 'loop', 'loop', 'ret', 'ret', 'adv', 'adv', 'del', 'del',
            'round', 'round', 'round', 'hold', 'pause', 'resume']
 MID_OPS = ['loop', 'loop', 'ret', 'adv', 'del', 'round', 'resume']
+FAILED_IX = STD.index('failed')     # payload value that selects "failed"
 
 
 def implied(outs: Set[str]) -> Set[str]:
@@ -117,7 +118,7 @@ def _with_children(model: Model, insts):
 
 
 @st.composite
-def set_steps(draw, parents, kids):
+def set_steps(draw, parents, kids, retry_tasks=()):
     mode = draw(st.sampled_from(
         ['default', 'default', 'out', 'out', 'out', 'out', 'pre-all',
          'pre-all', 'pre', 'pre', 'pre']))
@@ -130,7 +131,19 @@ def set_steps(draw, parents, kids):
     if mode == 'pre' and draw(st.integers(0, 2)) == 0:
         # only prerequisites of other tasks / unknown ones
         payload = [3 * (k // 3) for k in payload]
-    return ['xset', n, mode, payload, draw(st.sampled_from(FLOWS))]
+    step = ['xset', n, mode, payload, draw(st.sampled_from(FLOWS))]
+    if mode == 'out' and retry_tasks and draw(st.booleans()):
+        # a task with a live job (and execution retries lined up, if there
+        # is one) is given "failed" by hand
+        step[1] = ['live', draw(st.integers(0, 7))]
+        step[3] = [FAILED_IX] + payload[1:]
+    if mode == 'pre' and len(kids) > 1 and draw(st.booleans()):
+        # one command addressed to several tasks (their prerequisites
+        # differ in general; each one's share is drawn with the same payload)
+        more = draw(st.lists(st.sampled_from(kids), min_size=1, max_size=2,
+                             unique=True))
+        step.append([list(x) for x in more])
+    return step
 
 
 @st.composite
@@ -163,11 +176,19 @@ def cases(draw):
                                  'set', 'diff', 'diff', 'diff']))
     case = {'spec': spec, 'outcomes': outcomes, 'kind': kind}
     if kind == 'set':
+        retry_tasks = []
+        if draw(st.integers(0, 2)) == 0:
+            # execution retry delays (PT0S): a failed job is followed by
+            # another one; `cylc set --out=failed` must not be
+            for t in spec['tasks']:
+                if draw(st.integers(0, 3)) != 0:
+                    spec['retries'][t] = {'exec': draw(st.integers(1, 2))}
+                    retry_tasks.append(t)
         sched = draw(_steps(PRE_OPS, 24))
-        sched.append(draw(set_steps(parents, kids)))
+        sched.append(draw(set_steps(parents, kids, retry_tasks)))
         if draw(st.integers(0, 2)) == 0:
             sched += draw(_steps(MID_OPS, 8))
-            sched.append(draw(set_steps(parents, kids)))
+            sched.append(draw(set_steps(parents, kids, retry_tasks)))
         sched += draw(_steps(MID_OPS, 5))
         if draw(st.booleans()):
             sched.append(['resume', 0])
@@ -256,30 +277,39 @@ class Ast:
         return all(ev(tr) for tr in self.model.trees_at(t, p))
 
 
-def db_outputs(sim, cycle: str, name: str) -> Set[str]:
-    """Completed outputs recorded for the instance (all flows), read through
-    a fresh connection."""
-    out: Set[str] = set()
+def db_rows(sim, cycle: str, name: str) -> List[Tuple[List[int], List[str]]]:
+    """task_outputs rows of the instance as (flow numbers, completed
+    outputs), read through a fresh connection."""
+    res: List[Tuple[List[int], List[str]]] = []
     try:
         path = sim.schd.workflow_db_mgr.pri_path
         con = sqlite3.connect(f'file:{path}?mode=ro', uri=True, timeout=5)
     except Exception:
-        return out
+        return res
     try:
         rows = con.execute(
-            'SELECT outputs FROM task_outputs WHERE cycle=? AND name=?',
-            (cycle, name)).fetchall()
+            'SELECT flow_nums, outputs FROM task_outputs WHERE cycle=? AND '
+            'name=?', (cycle, name)).fetchall()
     except sqlite3.Error:
         rows = []
     finally:
         con.close()
-    for (txt,) in rows:
+    for (fl, txt) in rows:
         try:
             val = json.loads(txt)
-        except ValueError:
+            fns = sorted(json.loads(fl))
+        except (ValueError, TypeError):
             continue
-        if isinstance(val, dict):
-            out.update(val.keys())
+        res.append((fns, sorted(val.keys()) if isinstance(val, dict) else []))
+    return sorted(res)
+
+
+def db_outputs(sim, cycle: str, name: str) -> Set[str]:
+    """Completed outputs recorded for the instance (all flows), read through
+    a fresh connection."""
+    out: Set[str] = set()
+    for (_fl, outs) in db_rows(sim, cycle, name):
+        out.update(outs)
     return out
 
 
@@ -359,7 +389,24 @@ def _resolve(ast: Ast, sc: SCase, t: str, p: int, mode: str, payload):
 
 def _target(drv, n) -> Optional[str]:
     """int: Driver.pick (even = pooled task, odd = any model instance);
-    [task, point]: that model instance."""
+    [task, point]: that model instance; ['live', k]: the k-th pooled task
+    with a live job (those with execution retries configured first), any
+    pooled task / model instance if there is none."""
+    if isinstance(n, list) and n[0] == 'live':
+        if not drv.sim.running:
+            return None
+        retr = drv.spec.get('retries') or {}
+        live = sorted(
+            (t for t in drv.sim.schd.pool.get_tasks()
+             if t.state(*LIVE)),
+            key=lambda t: (not (retr.get(t.tdef.name) or {}).get('exec'),
+                           t.identity))
+        if live:
+            k = n[1]
+            first = [t for t in live
+                     if (retr.get(t.tdef.name) or {}).get('exec')] or live
+            return first[k % len(first)].identity
+        return drv.pick(n[1])
     if isinstance(n, list):
         return f'{drv.to_str[n[1]]}/{n[0]}'
     return drv.pick(n)
@@ -367,7 +414,7 @@ def _target(drv, n) -> Optional[str]:
 
 async def _xset(sc: SCase, step, ast: Ast):
     from cylc.flow import commands
-    _op, n, mode, payload, flow = step
+    _op, n, mode, payload, flow = step[:5]
     sim, drv = sc.sim, sc.drv
     if not sim.running:
         return
@@ -377,16 +424,31 @@ async def _xset(sc: SCase, step, ast: Ast):
     cyc, name = id_.split('/', 1)
     p = drv.to_int[cyc]
     outputs, prereqs = _resolve(ast, sc, name, p, mode, payload)
+    # further targets of the same command (--pre only): the prerequisites
+    # requested are the union of what the payload selects for each target
+    targets = [id_]
+    if len(step) > 5 and mode == 'pre':
+        for n2 in step[5]:
+            id2 = _target(drv, n2)
+            if not id2 or id2 in targets:
+                continue
+            targets.append(id2)
+            c2, t2 = id2.split('/', 1)
+            for s in _resolve(ast, sc, t2, drv.to_int[c2], mode, payload)[1]:
+                if s not in prereqs:
+                    prereqs.append(s)
     in_pool, outs_before = outputs_now(sim, cyc, name)
-    info = {'target': id_, 'mode': mode, 'outputs': outputs,
+    info = {'target': id_, 'targets': targets, 'mode': mode,
+            'outputs': outputs,
             'prereqs': prereqs, 'flow': list(flow), 'n0': len(sim.trace),
             'paused': bool(sim.schd.is_paused), 'in_pool': in_pool,
             'outs_before': sorted(outs_before)}
     await drv._run('xset', commands.set_prereqs_and_outputs(
-        sim.schd, [id_], list(flow), outputs=outputs,
+        sim.schd, list(targets), list(flow), outputs=outputs,
         prerequisites=prereqs, flow_wait=False), **info)
     if sim.running:
         sim.trace[-1]['outs_after'] = sorted(outputs_now(sim, cyc, name)[1])
+        sim.trace[-1]['rows_after'] = db_rows(sim, cyc, name)
     else:
         sim.trace[-1]['outs_after'] = None
 
@@ -447,10 +509,15 @@ def _oracle_set(sc: SCase, ast: Ast, final_pool, paused_end, crashed, viol,
     cmds = [(i, ev) for i, ev in enumerate(trace)
             if ev['k'] == 'cmd' and ev['cmd'] == 'xset']
     nontrivial = False
-    for ci, (idx, ev) in enumerate(cmds):
+    # one pass per (command, target): only --pre commands have several
+    per_target = [(ci, idx, ev, tid) for ci, (idx, ev) in enumerate(cmds)
+                  for tid in (ev.get('targets') or [ev['target']])]
+    for (ci, idx, ev, tid) in per_target:
         last = ci == len(cmds) - 1
         mode, fl = ev['mode'], ev['flow']
-        tid = ev['target']
+        all_targets = ev.get('targets') or [ev['target']]
+        if len(all_targets) > 1:
+            classes.add('pre:several-targets')
         cyc, name = tid.split('/', 1)
         p = to_int[cyc]
         classes.add('mode:' + mode)
@@ -468,7 +535,8 @@ def _oracle_set(sc: SCase, ast: Ast, final_pool, paused_end, crashed, viol,
         ran_before = any(
             (e['k'] in ('add', 'launch') and e['cycle'] == cyc
              and e['name'] == name)
-            or (e['k'] == 'cmd' and e.get('target') == tid)
+            or (e['k'] == 'cmd' and (
+                e.get('target') == tid or tid in (e.get('targets') or ())))
             for e in trace[:ev['n0']])
         if b is not None:
             classes.add('target:' + b['status'])
@@ -517,34 +585,77 @@ def _oracle_set(sc: SCase, ast: Ast, final_pool, paused_end, crashed, viol,
                         classes.add('default:success-optional+required-output')
             # (O1)/(O4) outputs complete afterwards
             missing = want - outs_a
-            if missing:
+            # The missing outputs are reported per root cause, each group
+            # under its own signature, so that a recorded finding never
+            # absorbs an output that is missing for another reason.
+            groups: List[Tuple[str, Set[str], str]] = []
+            rest = set(missing)
+            # (a) completed on the transient proxy of an inactive target
+            # (`out` events) and the UPDATE of task_outputs was queued for
+            # the proxy's flow set, but the table has no row with exactly
+            # that flow set (only overlapping ones): recorded nowhere.
+            # Observed, not assumed: `dbout` event + rows after the command.
+            if rest and b is None:
+                puts = [e for e in trace[ev['n0']:idx]
+                        if e['k'] == 'dbout' and e['cycle'] == cyc
+                        and e['name'] == name]
+                rows = ev.get('rows_after') or []
+                lost = {o for o in rest & new if any(
+                    o in e['outs'] and rows and all(
+                        list(r[0]) != e['flows'] for r in rows)
+                    for e in puts)}
+                if lost:
+                    groups.append((
+                        ('C29:selected-output-not-completed'
+                         if lost & asked else
+                         'C29:implied-output-not-completed')
+                        + ':not-recorded-in-db', lost,
+                        f'completed on the transient proxy, UPDATE queued '
+                        f'for flows {[e["flows"] for e in puts]}, '
+                        f'task_outputs rows {rows}'))
+                    rest -= lost
+            # (b) --out=submit-failed: the forced message is not handled at
+            # all (no completion on the proxy either)
+            if (mode == 'out' and 'submit-failed' in rest & asked
+                    and 'submit-failed' not in new):
+                groups.append((
+                    'C29:selected-output-not-completed:submit-failed',
+                    {'submit-failed'}, 'never completed on the proxy'))
+                rest.discard('submit-failed')
+            # (c) anything else
+            if rest:
                 if mode == 'default':
                     sig = 'C29:default-selection-incomplete'
                     # root cause apart: explicit completion expression
                     # "<outputs> and (succeeded or failed)"; only the
                     # success pathway is missing
                     if (name in (spec['extra'].get('completion') or {})
-                            and missing <= {'submitted', 'started',
-                                            'succeeded'}):
+                            and rest <= {'submitted', 'started',
+                                         'succeeded'}
+                            and not (rest & new)):
                         sig += ':required-output-and-optional-success'
+                    groups.append((sig, rest, ''))
                 else:
-                    sig = ('C29:implied-output-not-completed'
-                           if not (missing & asked) else
-                           'C29:selected-output-not-completed')
-                    if missing == {'submit-failed'}:
-                        sig += ':submit-failed'
-                    elif b is None and missing <= new:
-                        # completed on the transient proxy, lost on the way
-                        # to the task_outputs table
-                        sig += ':not-recorded-in-db'
-                    classes.add('out:selected-missing')
+                    sel, imp = rest & asked, rest - asked
+                    if sel:
+                        groups.append((
+                            'C29:selected-output-not-completed', sel, ''))
+                    if imp:
+                        groups.append((
+                            'C29:implied-output-not-completed', imp, ''))
+            if missing and mode == 'out':
+                classes.add('out:selected-missing')
+            for sig, outs_m, why in groups:
+                classes.add('missing:' + sig[4:])
                 viol.append(Violation(
                     sig,
                     f'cylc set {"(no options)" if mode == "default" else ev["outputs"]} '
                     f'--flow={fl} on {tid} ({b["status"] if b else "not in pool"}'
                     f'): outputs complete before {sorted(outs_b)}, after '
-                    f'{sorted(outs_a)}; expected also {sorted(missing)} '
-                    f'(required per AST: {sorted(ast.required(name))})'))
+                    f'{sorted(outs_a)}; expected also {sorted(outs_m)}'
+                    f'{" (" + why + ")" if why else ""} '
+                    f'(required per AST: {sorted(ast.required(name))}; '
+                    f'all missing: {sorted(missing)})'))
             extra = new - want
             if extra and mode == 'out':
                 viol.append(Violation(
@@ -579,7 +690,9 @@ def _oracle_set(sc: SCase, ast: Ast, final_pool, paused_end, crashed, viol,
                     seen = any(
                         (e['k'] in ('add', 'launch')
                          and e['cycle'] == to_str[q] and e['name'] == c)
-                        or (e['k'] == 'cmd' and e.get('target') == cid)
+                        or (e['k'] == 'cmd' and (
+                            e.get('target') == cid
+                            or cid in (e.get('targets') or ())))
                         for e in trace[:idx])
                     if seen:
                         classes.add('child-not-spawned:seen-before')
@@ -634,7 +747,8 @@ def _oracle_set(sc: SCase, ast: Ast, final_pool, paused_end, crashed, viol,
             tb = _truthy(b) if b is not None else set()
             ta = _truthy(a) if a is not None else set()
             others_changed = [
-                cid for cid in set(before) | set(after) if cid != tid and (
+                cid for cid in set(before) | set(after)
+                if cid not in all_targets and (
                     cid not in before or cid not in after
                     or _truthy(before[cid]) != _truthy(after[cid]))]
             if others_changed:
@@ -822,6 +936,20 @@ def watch_outputs(sim, spec):
         return r
 
     tem.process_message = process_message
+
+    # `dbout` trace events: an UPDATE of the task_outputs row of the proxy's
+    # exact flow set was queued (WorkflowDatabaseManager keys it on
+    # cycle, name, flow_nums)
+    dbm = sim.schd.workflow_db_mgr
+    inner_put = dbm.put_update_task_outputs
+
+    def put_update_task_outputs(itask, *a, **k):
+        sim.ev('dbout', cycle=str(itask.point), name=itask.tdef.name,
+               flows=sorted(itask.flow_nums),
+               outs=sorted(itask.state.outputs.get_completed_outputs()))
+        return inner_put(itask, *a, **k)
+
+    dbm.put_update_task_outputs = put_update_task_outputs
 
 
 async def _check_diff(case, ctx: Ctx) -> CaseResult:
